@@ -251,6 +251,9 @@ class OldEnv:
                 if isinstance(n.func, ast.Name) and n.func.id == "old":
                     return ast.Call(func=ast.Name(id="__old", ctx=ast.Load()),
                                     args=[ast.Constant(value=ast.unparse(n.args[0]))], keywords=[])
+                if isinstance(n.func, ast.Name) and n.func.id == "implies" and len(n.args) == 2 and not n.keywords:
+                    # the consequent is only meaningful (and only evaluated) when the antecedent holds
+                    return ast.BoolOp(op=ast.Or(), values=[ast.UnaryOp(op=ast.Not(), operand=n.args[0]), n.args[1]])
                 return n
         t = R().visit(self.tree)
         ast.fix_missing_locations(t)
